@@ -201,6 +201,20 @@ def run_selftest(ctx):
         for v in bad[:5]:
             log("   ", v["id"], next((r["text"] for r in rrecs if r["id"] == v["id"]), ""), V.wit_str(v))
         expect(chk.replace("SELF.", "").replace("_", " "), len(sel) >= 150 and not bad)
+    # the same for gamma
+    gcases = V.tlc_generate(ctx, "formula", 120, 2) + [{"id": f"ge{i}", "f": f} for i, f in enumerate(
+        ["p(X) -> not q(X)", "forall X (p(X) <-> q(X) or r)", "(p(1) <- q(1)) <- r", "not not p(1) -> p(1)", "exists X (p(X) and not forall Y (t(X, Y) -> q(Y)))"])]
+    grecs2 = [r for r in V.run_harness(ctx, "gamma", gcases, tag="-gref") if r["kind"] == "gamma"]
+    guse = []
+    for i, r in enumerate(grecs2):
+        if C.formula_cost_params(ctx, r, i, [r["f"]])[0] is None:
+            guse.append(r)
+    vs = V.tlc_validate(ctx, "TraceSem", guse, {"VERIF_PROP": "SELF"})
+    for chk in ("SELF.reference_gamma_reduces_ht_to_classical", "SELF.anthem_vs_reference_gamma"):
+        sel = [v for v in vs if v["check"] == chk]
+        bad = [v for v in sel if v["v"] == "DISAGREE"]
+        log(f"  {chk}: {len(sel)} formulas, {sum(v['n'] for v in sel)} evaluations, {sum(v['ident'] for v in sel)} identical groundings, {len(bad)} disagreements")
+        expect(chk.replace("SELF.", "").replace("_", " "), len(sel) >= 60 and not bad)
     ok = all(x for _, x in results)
     print(f"selftest: {sum(1 for _, x in results if x)}/{len(results)} expectations met")
     return 0 if ok else 1
